@@ -222,6 +222,7 @@ type nodeH struct {
 	poisoned      string
 	poisonedNote  string
 	poisonChecked uint32
+	subscribers []*nodeSub
 	// request -> remotes that answered it in turn (name, and name:lied
 	// when the answer contained the liar's false value)
 	answered map[string]map[string]bool
@@ -916,6 +917,7 @@ type nodeMode struct {
 	noEarly    bool // script events only when the node is idle
 	long       bool // the 2005-block tree (filter checkpoints at 1000 and 2000)
 	converge   bool // convergence on the honest chain is demanded
+	subs       bool // virtual block subscribers replay the events (C19)
 }
 
 var nodeModes = map[string]nodeMode{
@@ -927,6 +929,8 @@ var nodeModes = map[string]nodeMode{
 	// C03 on a chain long enough for filter checkpoints: the liar's false
 	// filter hash makes its checkpoints false from that height on
 	"C04L": {name: "C04", converge: true, long: true, behaviours: []string{"false-cfheaders", "false-prev-header", "silent", "drops-on-cf", "honest", "invalid-header", "garbage"}},
+	"C19N": {name: "C19", subs: true, behaviours: []string{"honest", "silent", "invalid-header", "lighter-fork", "false-cfheaders", "drops-on-cf"}},
+	"C19L": {name: "C19", subs: true, long: true, behaviours: []string{"honest", "false-cfheaders", "silent", "drops-on-cf"}},
 	"C03L": {name: "C03", behaviours: []string{"false-cfheaders", "false-prev-header", "silent", "drops-on-cf", "honest"}, long: true},
 }
 
@@ -1015,6 +1019,9 @@ func nodeRun(c *verifeng.Chooser, f *nodeFix, env *verifhfs.Env, mode nodeMode, 
 			h.stop(false)
 		}
 	}()
+	if mode.subs {
+		h.subscribe("S0", 0)
+	}
 
 	// the default script of environment events, taken one at a time each
 	// time the node has converged
@@ -1042,6 +1049,16 @@ func nodeRun(c *verifeng.Chooser, f *nodeFix, env *verifhfs.Env, mode nodeMode, 
 	}
 	if mode.name == "C15" {
 		script = h.c15Script(grow)
+	} else if mode.subs {
+		late := func(name string) nodeEv {
+			return nodeEv{"a subscriber registers with the backlog above the fork point", func() { h.subscribe(name, uint32(f.forkFrom)) }}
+		}
+		script = append(script,
+			nodeEv{"the honest chain grows by one block", grow},
+			late("S1"),
+			nodeEv{"the honest side reorganises onto the fork", reorg},
+			late("S2"),
+			nodeEv{"the honest chain grows by one block", grow})
 	} else {
 		script = append(script,
 			nodeEv{"the honest chain grows by one block", grow},
@@ -1062,6 +1079,9 @@ func nodeRun(c *verifeng.Chooser, f *nodeFix, env *verifhfs.Env, mode nodeMode, 
 	for !c.Failed() {
 		verifbubble.Wait()
 		if h.safety() {
+			return
+		}
+		if mode.subs && h.drainSubs() {
 			return
 		}
 		h.checkPoison()
@@ -1172,6 +1192,111 @@ func nodeRun(c *verifeng.Chooser, f *nodeFix, env *verifhfs.Env, mode nodeMode, 
 	}
 	stopped = true
 	h.stop(true)
+}
+
+// ---- virtual block subscribers (C19 end to end)
+
+// nodeSub replays the events of one block subscription onto a chain that
+// starts at the block it asked the backlog from.
+type nodeSub struct {
+	name  string
+	base  uint32
+	sub   *blockntfns.Subscription
+	chain []wire.BlockHeader // chain[i] has height base+i
+	n     int
+}
+
+func (h *nodeH) subscribe(name string, base uint32) {
+	hd, err := h.cs.BlockHeaders.FetchHeaderByHeight(base)
+	if err != nil {
+		return
+	}
+	sub, err := h.cs.blockSubscriptionMgr.NewSubscription(base)
+	if err != nil {
+		// a height above the committed tip is refused
+		h.c.Note("subscription %s from height %d refused: %v", name, base, err)
+		return
+	}
+	h.subscribers = append(h.subscribers, &nodeSub{name: name, base: base, sub: sub, chain: []wire.BlockHeader{*hd}})
+}
+
+// drainSubs lets every subscriber take what is waiting for it and applies the
+// replay rule of the statement.
+func (h *nodeH) drainSubs() bool {
+	c := h.c
+	for {
+		got := false
+		for _, sb := range h.subscribers {
+			for {
+				var n blockntfns.BlockNtfn
+				select {
+				case n = <-sb.sub.Notifications:
+				default:
+				}
+				if n == nil {
+					break
+				}
+				got = true
+				sb.n++
+				tip := sb.chain[len(sb.chain)-1]
+				tipHeight := sb.base + uint32(len(sb.chain)-1)
+				hd := n.Header()
+				switch ev := n.(type) {
+				case *blockntfns.Connected:
+					if ht := ev.Height(); ht <= tipHeight && ht >= sb.base && sb.chain[ht-sb.base].BlockHash() == hd.BlockHash() {
+						continue // a block already held
+					}
+					if ev.Height() != tipHeight+1 || hd.PrevBlock != tip.BlockHash() {
+						return c.Fail("C19", "C19:connected-event-does-not-extend-replayed-chain", "subscriber %s holds %s at height %d and receives connected(%s, height %d)", sb.name, h.f.label(tip.BlockHash()), tipHeight, h.f.label(hd.BlockHash()), ev.Height())
+					}
+					sb.chain = append(sb.chain, hd)
+				case *blockntfns.Disconnected:
+					if ev.Height() > tipHeight {
+						// the header of a block whose filter header was
+						// never committed (never announced as connected)
+						// is removed: nothing the subscriber holds
+						continue
+					}
+					if ev.Height() != tipHeight || hd.BlockHash() != tip.BlockHash() || len(sb.chain) < 2 {
+						return c.Fail("C19", "C19:disconnected-event-not-for-replayed-tip", "subscriber %s holds %s at height %d and receives disconnected(%s, height %d)", sb.name, h.f.label(tip.BlockHash()), tipHeight, h.f.label(hd.BlockHash()), ev.Height())
+					}
+					sb.chain = sb.chain[:len(sb.chain)-1]
+					nt := ev.ChainTip()
+					if nt.BlockHash() != sb.chain[len(sb.chain)-1].BlockHash() {
+						return c.Fail("C19", "C19:disconnected-event-wrong-new-tip", "subscriber %s: disconnected(%s) names %s as the tip afterwards, the replayed chain says %s", sb.name, h.f.label(hd.BlockHash()), h.f.label(nt.BlockHash()), h.f.label(sb.chain[len(sb.chain)-1].BlockHash()))
+					}
+				}
+			}
+		}
+		if !got {
+			break
+		}
+		verifbubble.Wait()
+	}
+	// with everything delivered the replayed chains equal the committed one
+	_, ft, err := h.cs.RegFilterHeaders.ChainTip()
+	if err != nil {
+		return false
+	}
+	for _, sb := range h.subscribers {
+		tipHeight := sb.base + uint32(len(sb.chain)-1)
+		if tipHeight != ft {
+			return c.Fail("C19", "C19:replayed-chain-differs-from-committed", "subscriber %s (from height %d, %d events) holds a chain up to height %d, the committed filter-header tip is %d", sb.name, sb.base, sb.n, tipHeight, ft)
+		}
+		// compare the top of the chain (everything at long chains would
+		// be quadratic; below the fork point nothing ever changes)
+		lo := sb.base
+		if ff := uint32(h.f.forkFrom); ff > lo {
+			lo = ff
+		}
+		for ht := lo; ht <= ft; ht++ {
+			hd, err := h.cs.BlockHeaders.FetchHeaderByHeight(ht)
+			if err != nil || hd.BlockHash() != sb.chain[ht-sb.base].BlockHash() {
+				return c.Fail("C19", "C19:replayed-chain-differs-from-committed", "subscriber %s holds %s at height %d, the committed chain has %v there (%v)", sb.name, h.f.label(sb.chain[ht-sb.base].BlockHash()), ht, hd, err)
+			}
+		}
+	}
+	return false
 }
 
 // ---- API calls of the client's user (C13, C17)
@@ -1548,6 +1673,9 @@ func (h *nodeH) stop(check bool) {
 	if h.stalledSub != nil {
 		h.stalledSub.Cancel()
 	}
+	for _, sb := range h.subscribers {
+		sb.sub.Cancel()
+	}
 	for _, p := range h.peers {
 		if p.conn != nil {
 			p.conn.c.Close()
@@ -1650,7 +1778,7 @@ func runNode(t *testing.T, harness, modeName string) {
 	if tier == "thorough" {
 		cfgs = []nodeCfg{{3, 1}, {2, 2}}
 	}
-	if modeName == "C03L" || modeName == "C04L" {
+	if modeName == "C03L" || modeName == "C04L" || modeName == "C19L" {
 		cfgs = []nodeCfg{{1, 1}}
 		if tier == "thorough" {
 			cfgs = []nodeCfg{{2, 1}, {1, 2}}
@@ -1703,6 +1831,8 @@ func TestVFXC17(t *testing.T)  { runNode(t, "C17-node", "C17") }
 func TestVFXC15N(t *testing.T) { runNode(t, "C15-node", "C15") }
 func TestVFXC03L(t *testing.T) { runNode(t, "C03-long-chain", "C03L") }
 func TestVFXC04L(t *testing.T) { runNode(t, "C04-long-chain", "C04L") }
+func TestVFXC19N(t *testing.T) { runNode(t, "C19-node", "C19N") }
+func TestVFXC19L(t *testing.T) { runNode(t, "C19-long-chain", "C19L") }
 
 var _ = banman.NoCompactFilters
 var _ = errors.New
